@@ -367,6 +367,8 @@ def ob_batch(exprs):
         for k in ("paths", "branches", "checks", "concretisations", "claims"):
             agg[k] += d.get(k, 0)
         agg["solver_s"] += d.get("solver_s", 0.0)
+        from vk import sym as _sym
+        _sym.merge_xcheck(agg, d)
         for c in d.get("cexs", []):
             c["expr"] = e
             agg["cexs"].append(c)
